@@ -115,6 +115,7 @@ func (m *Mutex) unlock(s *simrt.Sim) {
 	}
 	m.waiters = m.waiters[:0]
 	s.Ev("unlock", m.id)
+	s.AfterRelease()
 }
 
 // Held reports whether the mutex is held in the current run, and by which task.
@@ -206,6 +207,7 @@ func (m *RWMutex) RUnlock() {
 		m.wwait = m.wwait[:0]
 	}
 	s.Ev("runlock", m.id)
+	s.AfterRelease()
 }
 
 // Lock locks m for writing.
@@ -267,6 +269,7 @@ func (m *RWMutex) Unlock() {
 	}
 	m.wwait = m.wwait[:0]
 	s.Ev("wunlock", m.id)
+	s.AfterRelease()
 }
 
 // TryLock / TryRLock.
